@@ -24,9 +24,17 @@ static bool mine()
 
 // ------------------------------------------------------------------------------ mate solver with memo
 static std::unordered_map<std::string, int> g_memo;  // key -> best known: +n proven mate within n, -(n) proven no mate within n
+static uint64_t g_solver_nodes = 0, g_solver_budget = 0;   // per top-level call; 0 = unlimited
+static bool g_solver_aborted = false;
 static bool memo_can_mate_in(const ref::Pos& p, int moves);
 static bool memo_gets_mated_in(const ref::Pos& p, int moves)
 {
+    if (g_solver_aborted) return false;
+    if (g_solver_budget && ++g_solver_nodes > g_solver_budget)
+    {
+        g_solver_aborted = true;
+        return false;
+    }
     std::vector<ref::Mv> ms;
     ref::gen_legal(p, ms);
     if (ms.empty()) return ref::in_check(p, p.stm);
@@ -62,6 +70,7 @@ static bool memo_can_mate_in(const ref::Pos& p, int moves)
             break;
         }
     }
+    if (g_solver_aborted) return false;   // an aborted search proves nothing: do not memoise
     if (g_memo.size() < 4000000) g_memo[key] = res ? moves : -moves;
     return res;
 }
@@ -219,8 +228,17 @@ static sess::Outcome run_and_check(Session& s, bool check = true)
             {
                 int cap = solver_cap();
                 int mvs = int(std::min<long long>(std::llabs(y), cap));
+                g_solver_nodes = 0;
+                g_solver_budget = 1500000;   // bounded effort per announcement
+                g_solver_aborted = false;
                 bool truth = y > 0 ? memo_can_mate_in(root, mvs) : memo_gets_mated_in(root, mvs);
-                if (truth)
+                g_solver_budget = 0;
+                if (g_solver_aborted)
+                {
+                    g_solver_aborted = false;
+                    R.count("mate_announcements_unverified_solver_budget");
+                }
+                else if (truth)
                     R.count("mate_announcements_verified");
                 else if (std::llabs(y) <= cap)
                     R.violation(std::string("C08:false_mate_announcement:") + (y > 0 ? "winning" : "losing"), w().n("announced", y));
